@@ -258,7 +258,8 @@ def run(tier: str, seed: int) -> int:
         shutil.rmtree(tmp, ignore_errors=True)
     # cross-feature histories (World.tla, TLC -simulate) - provenances pack_partitions / parquet / compute / filter chains
     from . import world
-    world.stage(chk, quick, seed)
+    world.stage(chk, quick, seed)            # spec -> code: TLC-simulated behaviours of World replayed on real objects
+    world.drive_stage(chk, quick, seed)      # code -> spec: random driver histories judged by Trace_World
     if bad and len(chk.violations) == before:
         raise MachineryError("MC_DaskFrame: invariant violated but every behaviour replays correctly: DaskFrame.tla mis-describes the mechanism\n"
                              + bad[0].out[bad[0].out.index("Error:"):][:1500])
